@@ -1,3 +1,4 @@
+import HailVerif.Generated.SqlTimer
 /-
 Model of the transaction / retry layer of `gear/gear/database.py`:
 
@@ -6,9 +7,16 @@ Model of the transaction / retry layer of `gear/gear/database.py`:
 * `Conn`                 — one pooled connection inside `async with db.start() as tx`: the server keeps the last committed
                            state and the working state of the open transaction; `Transaction._aexit_1` calls
                            `conn.rollback()` when the body raised and `conn.commit()` otherwise;
-* `exec`                 — the statements of one attempt, run in order on the working state, with at most one injected
-                           fault `(i, e)`: error `e` is raised instead of executing statement number `i`
-                           (`i = body.length` is the COMMIT); a statement may also fail by itself (`step … = .error e`);
+* `timed`                — `Transaction.execute_and_fetchone / execute_and_fetchall / execute_insertone / execute_update /
+                           execute_many` called WITH a `query_name`: the `cursor.execute` runs inside
+                           `async with PrometheusSQLTimer(query_name):` (`gear/gear/metrics.py`); whether an exception raised in that
+                           block propagates is decided by the truth value of what `PrometheusSQLTimer.__aexit__` returns, which is
+                           re-read from the source on every run (`Generated.SqlTimer.aexitTruthy`); without a `query_name`
+                           (`named = false`) `cursor.execute` is called directly;
+* `exec`                 — the statements of one attempt (each with its `query_name` flag), run in order on the working state, with
+                           at most one injected fault `(i, e)`: error `e` is raised by `cursor.execute` instead of executing
+                           statement number `i` (`i = body.length` is the COMMIT, which is never instrumented); a statement may
+                           also fail by itself (`step … = .error e`);
 * `attempt`              — `async with db.start() as tx: return await fun(tx, …)`;
 * `runFrom` / `run`      — `retry_transient_mysql_errors.wrapper`: `while True: try: return await f() except Exception as exc:
                            if retryable: (log) else: raise; tries += 1; await sleep_before_try(tries)`.
@@ -74,23 +82,37 @@ def Conn.commit (c : Conn σ) : σ := c.working
 /-- `conn.rollback()`: the working state is dropped -/
 def Conn.rollback (c : Conn σ) : σ := c.committed
 
-/-- run the remaining statements on the working state `cur`; `fault = some (i, e)`: `e` is raised instead of the `i`-th
-remaining statement (the COMMIT when `i` equals their number) -/
-def exec (cur : σ) : List W → Option (Nat × Err) → Except Err σ
+/-- one `cursor.execute` / `executemany` of `Transaction.execute_*` whose outcome on the working state `cur` is `r`.
+`named = true`: the call sits inside `async with PrometheusSQLTimer(query_name):`; Python suppresses an exception raised in
+the block exactly when `__aexit__` returns a truthy value (`Generated.SqlTimer.aexitTruthy`), in which case the method
+carries on as if the statement had returned (the statement itself did not execute: working state `cur`).
+`named = false`: the `query_name is None` branch, no context manager around the call. -/
+def timed (named : Bool) (cur : σ) (r : Except Err σ) : Except Err σ :=
+  match r with
+  | .ok s => .ok s
+  | .error e => if named && Generated.SqlTimer.aexitTruthy then .ok cur else .error e
+
+/-- run the remaining statements on the working state `cur`; a statement is `(issued with a query_name?, statement)`;
+`fault = some (i, e)`: `e` is raised by the `i`-th remaining statement's `cursor.execute` instead of executing it
+(by `conn.commit()` when `i` equals their number) -/
+def exec (cur : σ) : List (Bool × W) → Option (Nat × Err) → Except Err σ
   | [], some (0, e) => .error e
   | [], _ => .ok cur
-  | _ :: _, some (0, e) => .error e
-  | w :: ws, some (i + 1, e) =>
-    match step cur w with
+  | (q, _) :: ws, some (0, e) =>
+    match timed q cur (.error e) with
+    | .error e' => .error e'
+    | .ok cur' => exec cur' ws none
+  | (q, w) :: ws, some (i + 1, e) =>
+    match timed q cur (step cur w) with
     | .error e' => .error e'
     | .ok cur' => exec cur' ws (some (i, e))
-  | w :: ws, none =>
-    match step cur w with
+  | (q, w) :: ws, none =>
+    match timed q cur (step cur w) with
     | .error e' => .error e'
     | .ok cur' => exec cur' ws none
 
 /-- one `async with db.start() as tx: await fun(tx)`: the new database state and the exception that escaped, if any -/
-def attempt (db : σ) (body : List W) (fault : Option (Nat × Err)) : σ × Option Err :=
+def attempt (db : σ) (body : List (Bool × W)) (fault : Option (Nat × Err)) : σ × Option Err :=
   let c := Conn.begin db
   match exec step c.working body fault with
   | .ok cur => (Conn.commit { c with working := cur }, none)
@@ -105,7 +127,7 @@ structure Result (σ : Type) where
   deriving DecidableEq, Repr
 
 /-- the retry loop, having already made `n` attempts -/
-def runFrom (n : Nat) (db : σ) (body : List W) : List (Option (Nat × Err)) → Result σ
+def runFrom (n : Nat) (db : σ) (body : List (Bool × W)) : List (Option (Nat × Err)) → Result σ
   | [] =>
     match attempt step db body none with
     | (db', err) => ⟨db', err, n + 1⟩
@@ -114,7 +136,7 @@ def runFrom (n : Nat) (db : σ) (body : List W) : List (Option (Nat × Err)) →
     | (db', none) => ⟨db', none, n + 1⟩
     | (db', some e) => if retryable e then runFrom (n + 1) db' body fs else ⟨db', some e, n + 1⟩
 
-def run (db : σ) (body : List W) (scripts : List (Option (Nat × Err))) : Result σ := runFrom step 0 db body scripts
+def run (db : σ) (body : List (Bool × W)) (scripts : List (Option (Nat × Err))) : Result σ := runFrom step 0 db body scripts
 
 end generic
 
@@ -132,6 +154,8 @@ inductive Stmt where
   | insert (k : Nat) (v : Int)
   /-- `UPDATE t SET v = v + d WHERE k = k` -/
   | update (k : Nat) (d : Int)
+  /-- `SELECT v FROM t WHERE k = k` (`execute_and_fetchone` / `execute_and_fetchall`): no effect on the tables -/
+  | select (k : Nat)
   deriving DecidableEq, Repr
 
 def get (db : DB) (k : Nat) : Option Int := (db.find? fun p => p.1 = k).map (·.2)
@@ -150,6 +174,7 @@ def step (db : DB) : Stmt → Except Err DB
   | .update k d => match get db k with
     | some v => .ok (put k (v + d) db)
     | none => .ok db
+  | .select _ => .ok db
 
 end KV
 
